@@ -72,7 +72,7 @@ impl<'a> Parser<'a> {
             ));
         }
         self.depth += 1;
-        let outer_height = std::mem::replace(&mut self.height, 0);
+        let outer_height = core::mem::replace(&mut self.height, 0);
         let result = parse(self);
         self.depth -= 1;
         // What this step built is one level taller than the tallest thing built inside it
